@@ -4,13 +4,13 @@ HARNESS_FILES = ["verif_poly.rs", "verif_bmoc.rs"]
 P = "nested::verif_poly::"
 MANIFEST = dict(
     category="other",
-    text="Decided: (1) the domain guard: for every depth and every semi-major axis a >= pi/2 (+inf included), whatever the centre, b and position angle, elliptical_cone_coverage_internal -- the function both the plain and the custom (delta_depth) variants call first -- panics on every path; (2) the structure of the real recursion elliptical_cone_coverage_recur with EllipticalCone::{contains_cone,contains,overlap_cone} replaced by ARBITRARY answers over a 2-level tree, cell centres / vertices by tags and the builder by its verified tracker contract: full iff contains_cone on the path or reached with 4 vertices contained, partial iff reached otherwise, dropped otherwise, strictly increasing disjoint pushes (well-formedness), threshold index = recursion level; (3) the small-ellipse branch (starting depth >= requested depth) of elliptical_cone_coverage_internal, same stubs: the result consists of valid, strictly increasing, partial cells of the requested depth, each the ancestor of the centre cell or of one of its 8 neighbours at the starting depth. Centre kept, circular case soundness and tightness go through Ellipse/ProjSIN quadratic-form algebra over trig values: NOT decided.",
+    text="Decided: (1) the domain guard: for every depth and every semi-major axis a >= pi/2 (+inf included), whatever the centre, b and position angle, elliptical_cone_coverage_internal -- the function both the plain and the custom (delta_depth) variants call first -- panics on every path; (2) the structure of the real recursion elliptical_cone_coverage_recur with EllipticalCone::{contains_cone,contains,overlap_cone} replaced by ARBITRARY answers over a 2-level tree, cell centres / vertices by tags and the builder by its verified tracker contract: full iff contains_cone on the path or reached with 4 vertices contained, partial iff reached otherwise, dropped otherwise, strictly increasing disjoint pushes (well-formedness), threshold index = recursion level. Centre kept, circular case soundness and tightness go through Ellipse/ProjSIN quadratic-form algebra over trig values: NOT decided.",
     note="NaN semi-major axis is outside the property's stated domain (a >= pi/2 is false for NaN) and is not claimed.",
-    technique="Kani must-panic harness (CBMC) on the real guard; Kani bounded harnesses on the real recursion and small-ellipse branch against their structural contracts (geometric predicates as arbitrary-answer stubs, builder as contract stub)",
+    technique="Kani must-panic harness (CBMC) on the real guard; Kani bounded harnesses on the real recursion against its structural contract (geometric predicates as arbitrary-answer stubs, builder as contract stub)",
 )
 EXPLANATION = "Must-panic obligation over all doubles >= pi/2 and all depths; structural units bounded in depth difference (<= 2) with every geometric answer symbolic."
 ASSUMPTIONS = ["all geometric claims of C13 NOT decided (EllipticalCone predicates answer arbitrarily in the structural units)"]
-TRUSTED_BASE = ["Kani 0.68 / CBMC 6.11", "ghost builder tracker (C08)", "core::slice::sort_unstable replaced by a selection sort in the small-ellipse units (std sort trusted to sort)"]
+TRUSTED_BASE = ["Kani 0.68 / CBMC 6.11", "ghost builder tracker (C08)"]
 def units():
     # a structural harness of the small-ellipse branch (geometry predicates as arbitrary answers, builder as contract;
     # harness/verif_poly.rs ellipse_small_*) did not finish in CBMC in 15 min (Vec collect/sort/dedup): not registered
@@ -22,4 +22,9 @@ def units():
                 "elliptical descent contract, requested depth = start + %d, EVERY assignment of the geometric answers (21-cell tree): a deepest cell is full iff contains_cone answered on its path or it was reached with its 4 vertices contained; partial iff reached and not full; absent otherwise; pushes ordered; threshold index = recursion level" % k,
                 timeout=1500, mem_gb=8, level="B", bound="depth difference %d" % k, extra=dict(no_native=True)) for k in (0, 1, 2)]
     probe = [Unit('sort_stub_probe', P + 'sort_stub_probe', ['(model stub) <[u64]>::sort_unstable'], 'the selection-sort stand-in used for core::slice::sort_unstable in the small-ellipse units is in effect and sorts', timeout=300, level='B', bound='3 elements', extra=dict(no_native=True))]
-    return probe + rec + small + [Unit("ellipse_guard_must_panic", P + "ellipse_guard_must_panic", ["Layer::elliptical_cone_coverage_internal"], "a >= pi/2 rejected by a panic on every path, every depth", kind="must_panic", allowed_fail=[r"Unable to handle ellipses"], timeout=600)]
+    # small-ellipse units (ellipse_small_*, sort_stub_probe) are NOT registered: with core sort replaced by a model they get through
+    # symbolic execution (35 min, 10 GB each) but CBMC then reports failed preconditions of __rust_dealloc on the in-place
+    # `into_iter().filter().map().collect()` Vec of the branch -- a failure of the memory model of the collect specialisation I could not
+    # attribute to the code (the same calls run clean natively and under the test suite): a check that alarms on the unchanged tree
+    # without a replayable input is not sound, so it is removed rather than loosened.
+    return rec + [Unit("ellipse_guard_must_panic", P + "ellipse_guard_must_panic", ["Layer::elliptical_cone_coverage_internal"], "a >= pi/2 rejected by a panic on every path, every depth", kind="must_panic", allowed_fail=[r"Unable to handle ellipses"], timeout=600)]
